@@ -118,6 +118,10 @@ def observe_after(kind, url, tmp, nwritten):
     return a
 
 
+# text the adapter kind cannot represent: write() raises and the record is not accepted
+BAD_TEXT = {"stream": "x\ud800", "streamgz": "x\ud800", "avro": "x\udcff", "sqlite": "x\ud800", "csv": "x\ud800"}
+
+
 def run_writer_history(kind, url, ops, tmp, desc):
     from flow.record import RecordWriter
 
@@ -133,6 +137,10 @@ def run_writer_history(kind, url, ops, tmp, desc):
         try:
             if op == "write":
                 w.write(desc(n + 1, "v%d" % (n + 1), _generated=gen.GEN))
+                n += 1
+            elif op == "badwrite":
+                ev["op"] = "write"          # a write like any other: accepted (then it counts) or refused with an exception
+                w.write(desc(n + 1, BAD_TEXT[kind], _generated=gen.GEN))
                 n += 1
             elif op == "flush":
                 w.flush()
@@ -173,12 +181,25 @@ def histories(maxlen):
     return out
 
 
+def with_badwrites(hs, maxlen):
+    """histories with one refused write inserted at every position in front of the first closing call"""
+    out = []
+    for h in hs:
+        if len(h) > maxlen or "write" not in h:
+            continue
+        first_close = min([i for i, op in enumerate(h) if op in ("close", "exit")] + [len(h)])
+        for i in range(first_close + 1):
+            out.append(h[:i] + ["badwrite"] + h[i:])
+    return out
+
+
 def writers_part(ctx, thorough):
-    ctx.design("Writers", "MC_Writers.cfg", "exhaustive: 8 adapter kinds x all call histories <= 6 over write/flush/close/exit", actions=("Write", "Flush", "Close", "Exit"), workers=4)
+    ctx.design("Writers", "MC_Writers.cfg", "exhaustive: 8 adapter kinds x all call histories <= 6 over write/flush/close/exit", actions=("Write", "FailedWrite", "Flush", "Close", "Exit"), workers=4)
     if thorough:
         ctx.sensitivity("Writers", "MC_Writers_dev_AvroCloseNoFlush.cfg", "Avro close without flush must violate ClosedMeansDurable", "ClosedMeansDurable", workers=4)
         ctx.sensitivity("Writers", "MC_Writers_dev_CloseNoHeader.cfg", "close without header must violate EmptyIsValid", "EmptyIsValid", workers=4)
         ctx.sensitivity("Writers", "MC_Writers_dev_FlushAfterCloseRaises.cfg", "flush after close raising must violate ClosingNeverRaises", "ClosingNeverRaises", workers=4)
+        ctx.sensitivity("Writers", "MC_Writers_dev_FailedWritePoisons.cfg", "a refused record that stays in the adapter's buffer must violate ClosedMeansDurable", "ClosedMeansDurable", workers=4)
     tmp = common.scratch("c17w")
     desc = D()
     hs = histories(4 if not thorough else 6)
@@ -192,6 +213,8 @@ def writers_part(ctx, thorough):
         hl = hs if name in KINDS or thorough or name.startswith("sqlite_b") else [h for h in hs if len(h) <= 3]
         if name.startswith("sqlite_b") and not thorough:
             hl = histories(5)
+        if base in BAD_TEXT:
+            hl = hl + with_badwrites(hs, 3 if not thorough else 4)
         for h in hl:
             traces.append(run_writer_history(base, url, h, tmp, desc))
             metas.append((name, h))
